@@ -584,6 +584,9 @@ func GenBig(r *lib.RNG, name string) *Case {
 		Pkt{T: t2, Conv: tc, D: 1, Fl: "PA", Seq: isnS + 1, Ack: isnC + 1 + 700, Pl: hex.EncodeToString(m2)},
 		Pkt{T: t2 + 5, Conv: tc, D: 0, Fl: "PA", Seq: isnC + 1 + 700, Ack: isnS + 1 + 1200, Pl: hex.EncodeToString(m3)})
 	addRep(&small, u2, 1, t2+10, 3, 7, 0x63)
+	// both flows that run across the snapshot point go on: whichever of them owns the packet AT the snapshot
+	// timestamp is rewritten by the second import (c05a: that packet not reloaded)
+	addRep(&small, u3, 1, t2+12, 2, 5, 0x64)
 	if !quiet {
 		addRep(&small, ul, 1, t2+20, 2, 3, 0x56)
 		tlSend(&small, t2+21, 0x66)
